@@ -28,7 +28,7 @@ LEVEL_NOTE = "Trusted: peer register file (frozen); equality is between two answ
 TECHNIQUE = "deterministic simulation: frozen peer, bulk read vs single read for every id, capability-change histories"
 
 FILLS = [("zero", 0), ("ff", 0), ("bound", 1), ("bound", 2), ("hash", 1), ("hash", 2), ("step", 3), ("step", 4)]
-HISTORIES = ["plain", "battery_off_on", "battery_on_off", "single_first", "before_info"]
+HISTORIES = ["plain", "battery_off_on", "battery_on_off", "single_first", "before_info", "settings_first"]
 REPS = {"quick": 1, "thorough": 12}
 _SPACE = {}
 
@@ -148,6 +148,15 @@ def run_case(case):
                 await inv.read_sensor(inv.sensors()[1].id_)
             except (ValueError, ge.InverterError, NotImplementedError):
                 pass
+        if h == "settings_first":
+            # ids that exist both as sensor and as setting (work_mode, battery_modules, ...) are read as SETTING first
+            sens = {x.id_ for x in inv.sensors()}
+            for st_ in list(inv.settings()):
+                if st_.id_ in sens:
+                    try:
+                        await inv.read_setting(st_.id_)
+                    except (ValueError, ge.InverterError):
+                        pass
         if h == "battery_off_on":
             dev.set_reg(35184, 0)
             b0 = await inv.read_runtime_data()
